@@ -31,6 +31,9 @@ def main(argv=None):
     if cmd == "selftest-sensitivity":
         from . import selftest
         return selftest.sensitivity(argv[1:])
+    if cmd == "digests":
+        from . import selftest
+        return selftest.digests_cmd(argv[1:])
     if cmd == "setup":
         return cmd_setup()
     ap = argparse.ArgumentParser()
